@@ -576,8 +576,9 @@ func c19SlowBody(r *Rng, dir string) string {
 	seq0, inSeq0, off := uint64(r.Pick(1, 101, 5000)), uint32(0), uint64(0)
 	inSeq0 = uint32(seq0)
 	if shifted {
-		off = uint64(r.Pick(9000, 45000, 90000))
-		inSeq0 = uint32(r.Pick(8090, 300, 77))
+		off = uint64(r.Pick(9000, 45000, 90000, 0, 0))
+		// (also incoming numbers next to the numbers the times imply, as an encoder counting from 1 produces)
+		inSeq0 = uint32(r.Pick(8090, 300, 77, int(seq0)+1, int(seq0)+1, int(seq0)+2))
 	}
 	seg := func(src string, ts uint64, k int) []byte {
 		b, err := readAsset(fmt.Sprintf(src, k%4+1))
@@ -659,6 +660,20 @@ func c19SlowBody(r *Rng, dir string) string {
 	}
 	if n != 2 {
 		return fmt.Sprintf("%sboth audio uploads were answered 2xx but %d audio segments are stored", what, n)
+	}
+	// the channel goes on: what the timeline MPD lists afterwards is what is stored
+	for k := 2; k < 5; k++ {
+		for _, u := range []c19Upload{{fmt.Sprintf("/upload/s/v0/%d.cmfv", inSeq0+uint32(k)), seg("testpic_2s/V300/%d.m4s", 90000, k)},
+			{fmt.Sprintf("/upload/s/a0/%d.cmfa", inSeq0+uint32(k)), seg("testpic_2s/A48/%d.m4s", 48000, k)}} {
+			if code, p := c19Put(h, u); code >= 500 || p != "" {
+				return fmt.Sprintf("%sPUT %s answered %d %s", what, u.path, code, p)
+			}
+			time.Sleep(10 * time.Millisecond)
+		}
+		time.Sleep(30 * time.Millisecond)
+		if w := c17MpdMatchesStored(filepath.Join(dir, "s")); w != "" {
+			return fmt.Sprintf("%safter round %d: %s", what, k, w)
+		}
 	}
 	return ""
 }
